@@ -298,6 +298,10 @@ class _CommonFile:
             if action == _SKIPPED:
                 # 'content' is whitespace/comments to write
                 yield content
+                if not content.endswith(b"\n"):
+                    # source file lacked a final newline;
+                    # don't glue the next record onto the comment.
+                    yield b"\n"
             else:
                 assert action == _RECORD
                 # 'content' is record key
